@@ -16,11 +16,15 @@
   (used by the command-line model BB.Cli).
   Outside the model (`Err.unsupported`): symbolic links, a leading "//" (which POSIX and
   os.path.normpath keep apart from "/"), NUL characters in paths, relative -i directories or main
-  paths (they depend on the working directory by definition), non-ASCII source text.
+  paths (they depend on the working directory by definition); include / include_bytes lines with
+  non-ASCII characters, files that are not well-formed UTF-8 (`Err.unsupported "non-ASCII source"`).
+  Source text outside ASCII is otherwise read as it is (UTF-8 files) and left to the lexer
+  (BB.Lex: `string` text, `error` messages and comments are modelled, the rest is refused there).
 -/
 import BB.Lex
 import BB.Parse
 import BB.Passes
+import BB.Spec.Utf8
 namespace BB
 
 structure FS where
@@ -126,9 +130,12 @@ def pathOk (p : String) : Bool :=
 /-- an absolute path string inside the model -/
 def absOk (p : String) : Bool := p.toList.head? = some '/' && pathOk p
 
-/-- `str.splitlines()` on ASCII text: \n, \r\n, \r, \v, \f, \x1c, \x1d, \x1e -/
+/-- `str.splitlines()`: \n, \r\n, \r, \v, \f, \x1c, \x1d, \x1e, and outside ASCII \x85 (NEL),
+    \u2028 (LINE SEPARATOR), \u2029 (PARAGRAPH SEPARATOR) — so such a character inside a comment
+    or inside the text of a `string` line ends the line there -/
 def isLineBreak (c : Char) : Bool :=
-  c = '\n' || c = '\r' || c = '\x0b' || c = '\x0c' || c = '\x1c' || c = '\x1d' || c = '\x1e'
+  c = '\n' || c = '\r' || c = '\x0b' || c = '\x0c' || c = '\x1c' || c = '\x1d' || c = '\x1e' ||
+  c = '\x85' || c = '\u2028' || c = '\u2029'
 
 def splitLinesAux : List Char → List Char → List (List Char)
   | [], cur => if cur.isEmpty then [] else [cur.reverse]
@@ -153,8 +160,28 @@ def lookupPath (fs : FS) (rel : String) : List String → Option String
   | [] => none
   | d :: ds => if fs.existsAt (pathJoin d rel) then some (pathJoin d rel) else lookupPath fs rel ds
 
-def bytesToAscii (bs : List Nat) : Option (List Char) :=
-  if bs.all (· < 128) then some (bs.map Char.ofNat) else none
+/-- an include / include_bytes line with a character outside ASCII (in the path, or Unicode white
+    space that `str.split()` would honour) is outside the model -/
+def includeLineOk (raw : List Char) : Bool :=
+  if ("include ".toList).isPrefixOf (lowerL raw) || ("include_bytes ".toList).isPrefixOf (lowerL raw)
+  then raw.all (fun c => c.toNat < 128) else true
+
+/-- a source text inside the model: its include / include_bytes lines are ASCII (non-ASCII text
+    elsewhere is the lexer's business: `string` text, `error` messages and comments are modelled,
+    anything else is `unsupported` there) -/
+def sourceOk (text : List Char) : Bool := (splitLines text).all includeLineOk
+
+/-- `open(path).read()`: the file decoded as UTF-8 (the locale encoding of the runs; strict —
+    an ill-formed file is a raw UnicodeDecodeError in the real code and `none` here), and inside
+    the model (`sourceOk`) -/
+def bytesToText (bs : List Nat) : Option (List Char) :=
+  match Utf8.decode bs with
+  | some cps =>
+    if cps.all Utf8.isScalar then
+      let text := cps.map Char.ofNat
+      if sourceOk text then some text else none
+    else none
+  | none => none
 
 /-- the directory nested includes of the file `p` are relative to:
     `os.path.dirname(os.path.abspath(p))` -/
@@ -186,7 +213,7 @@ def readLinesAux (fs : FS) (includeDirs : List String) : Nat → String → Stri
                 match fs.readAt incPath with
                 | none => .error (.internal "FileNotFoundError")
                 | some bs =>
-                  match bytesToAscii bs with
+                  match bytesToText bs with
                   | none => .error (.unsupported "non-ASCII source")
                   | some src => do
                     let inc ← readLinesAux fs includeDirs fuel incPath (baseOf incPath) src
@@ -236,14 +263,14 @@ def frontEnd (fs : FS) (cwd : String) (includeDirs : List String) (input : Input
   let fuel := fs.files.length + 2
   let lines ← match input with
     | .source text =>
-      if !text.toList.all (fun c => c.toNat < 128) then throw (.unsupported "non-ASCII source")
+      if !sourceOk text.toList then throw (.unsupported "non-ASCII source")
       readLinesAux fs includeDirs fuel "<string>" cwd text.toList
     | .path p =>
       if !absOk p then throw (.unsupported "path form")
       match fs.readAt p with
       | none => throw (.unsupported "main file missing")
       | some bs =>
-        match bytesToAscii bs with
+        match bytesToText bs with
         | none => throw (.unsupported "non-ASCII source")
         | some src => readLinesAux fs includeDirs fuel p (baseOf p) src
   let lines := lines.filter (fun l => l.contents.length > 0)
